@@ -469,6 +469,24 @@ impl WalRecord {
     }
 }
 
+/// Verification hooks (compiled only with `--cfg nervusdb_verif`): read-only access to the private
+/// record codec and checksum for the correspondence harness.  No behaviour change.
+#[cfg(nervusdb_verif)]
+impl WalRecord {
+    pub fn verif_encode_body(&self) -> Result<Vec<u8>> {
+        self.encode_body()
+    }
+
+    pub fn verif_decode_body(body: &[u8]) -> Result<Self> {
+        Self::decode_body(body)
+    }
+}
+
+#[cfg(nervusdb_verif)]
+pub fn verif_crc32(bytes: &[u8]) -> u32 {
+    crc32(bytes)
+}
+
 #[derive(Debug)]
 pub struct Wal {
     path: PathBuf,
